@@ -147,6 +147,28 @@ impl Monitor for C14 {
             if !matches!(c.name(), "swap" | "swap_v2" | "two_hop_swap" | "two_hop_swap_v2") {
                 continue;
             }
+            // Byzantine trader on a copy: the oracle slot of an adaptive-fee pool holds some empty address instead of the
+            // pool's oracle account. Such a swap would be charged without the adaptive part (and pass the trade-enable
+            // gate unseen), so it must not go through.
+            if ev.salt % 2 == 0 {
+                for slot in ["oracle", "oracle_one", "oracle_two"] {
+                    let Some(si) = c.idx(slot) else { continue };
+                    let ok_key = v.ix.accounts[si].pubkey;
+                    if v.pre.data(&ok_key).and_then(decode::oracle).is_none() {
+                        continue;
+                    }
+                    let mut ix2 = v.ix.clone();
+                    ix2.accounts[si].pubkey = crate::world::scratch_key(ev.salt, 9100 + si as u64);
+                    let mut f = v.pre.clone();
+                    let r = crate::rt::exec_tx_simple(&mut f, &crate::rt::Tx { ixs: vec![ix2] });
+                    cov.probe("substitute_oracle_address_forks");
+                    cov.eval(format!("{}|substitute_oracle|ok={}", c.name(), r.ok));
+                    if r.ok {
+                        out.push(viol("adaptive_fee_bypassed", ev.idx, format!("{} on an adaptive-fee pool succeeds with an empty address in the `{}` slot instead of the pool's oracle account: no adaptive fee, no trade-enable gate, no volatility update", c.name(), slot)));
+                        return out;
+                    }
+                }
+            }
             for o in observe(v.ix, v.out, v.pre, v.post) {
                 let okey = crate::ix::pda_oracle(&o.whirlpool);
                 let (Some(pre_o), Some(post_o)) = (v.pre.data(&okey).and_then(decode::oracle), v.post.data(&okey).and_then(decode::oracle)) else {
